@@ -240,7 +240,7 @@ func c17Tier(tier string) (enum, pkg, lifecycle, seqs int) {
 	if tier == "thorough" {
 		return enum, pkg, 20000, 200000
 	}
-	return enum, pkg, 2000, 3000
+	return enum, pkg, 20000, 30000
 }
 
 func c17CheckInert(c *core.Ctx, state string, recv reflect.Value, cs CallSpec, results []reflect.Value, isStack, isCond bool, trail []string) bool {
